@@ -24,6 +24,7 @@ META = {
     "assumptions": [],
 }
 META["claim"] += " " + 'Also: two or three connections of one process, each in the middle of its own fragmented message, served alternately (reassembly state is per connection).'
+META["claim"] += " " + "Round 3b: after send_close() the server's remaining messages (incl. empty ones cut into empty fragments, with pings in between) drained through recv / next / for / recv_data until its close frame; a WebSocketApp reassembly case."
 
 TEXTS = ["", "a", "é", "€", "\U0001f600", "ab€"[:2] + "c", "aé"]
 BINS = [b"", b"\x00", b"\xff\xfe", b"\x80\x81\x82", b"\xc3\x28\xa0\xa1"]
